@@ -43,7 +43,14 @@ class Conn:
         self.sent.append(r)
         if self.sim.decide("buffer_full_on_send"):
             self.sim.log.append(("transport-pause-reentrant",))
+            self.sim.transport_paused = True
             self.sim.o.pauseProducing()
+            if self.sim.allow_reentrant_resume and self.sim.reentrant_resumes < 1 and self.sim.decide("transport_resumes_inside_turn"):
+                # a synchronous (in-memory / loopback) transport drains at once: the resume arrives while the producer's turn is still on the stack
+                self.sim.reentrant_resumes += 1
+                self.sim.log.append(("transport-resume-reentrant",))
+                self.sim.transport_paused = False
+                self.sim.o.resumeProducing()
 
     def pauseProducing(self):
         self.calls.append("pause")
@@ -152,6 +159,8 @@ class Sim:
         self.script = list(decisions) if decisions is not None else None
         self.taken = []
         self.quits = 0
+        self.allow_reentrant_resume = False
+        self.reentrant_resumes = 0
         self.transport_paused = True    # what the transport last told us (no connection = paused)
 
     def decide(self, what):
@@ -241,9 +250,12 @@ def violations(sim, step_kind):
     registered = set(sim.subs)
     if set(sc for (sc, p, k) in sim.subs.values()) != set(o._subchannel_producers):
         out.append(("producer registry out of sync", ""))
-    paused_now = o._paused or sim.conn is None
+    # the truth is what the transport last said (or the absence of a connection), not Outbound's own flag
+    paused_now = sim.transport_paused or sim.conn is None
     if sim.conn is None and not o._paused:
         out.append(("not paused although there is no connection", ""))
+    if bool(o._paused) != bool(paused_now):
+        out.append(("Outbound's paused flag disagrees with the transport's last signal", "Outbound._paused=%r, transport paused=%r, connection=%r" % (o._paused, sim.transport_paused, sim.conn is not None)))
     for name in sorted(registered):
         st = sim.producer_state(name)
         if paused_now and st == "running":
@@ -268,14 +280,15 @@ class Backpressure(Job):
                  "_get_next_unpaused_producer/use_connection/stop_using_connection/queue_and_send_record/_check_invariants", "_dilation.outbound.PullToPush"]
     shadows = []
 
-    def __init__(self, k, first=()):
-        self.k, self.first = k, tuple(first)
-        self.name = "outbound_backpressure_k%d_%s" % (k, "-".join(map(str, first)) or "all")
+    def __init__(self, k, first=(), reentrant_resume=False):
+        self.k, self.first, self.reentrant_resume = k, tuple(first), reentrant_resume
+        self.name = "outbound_backpressure%s_k%d_%s" % ("_rr" if reentrant_resume else "", k, "-".join(map(str, first)) or "all")
         self.bounds = dict(steps=k, first_action_indices=list(first), producers="<= 3, push or pull", reentrancy="every producer turn may write; every send_record may make the transport pause from inside the call")
         self.must_reach = ()
 
     def scenario(self):
         sim = Sim()
+        sim.allow_reentrant_resume = self.reentrant_resume
         sched = []
         eng().inputs["sched"] = sched
         eng().inputs["decisions"] = sim.taken
@@ -314,6 +327,7 @@ class Backpressure(Job):
 
     def replay(self, inp, label):
         sim = Sim(decisions=inp["decisions"])
+        sim.allow_reentrant_resume = getattr(self, "reentrant_resume", False)
         for a in inp["sched"]:
             a = tuple(a)
             if a not in sim.enabled():
@@ -476,6 +490,10 @@ def jobs(tier):
     for a0 in range(3):
         for a1 in range(6):
             J.append(Backpressure(k, (a0, a1)))
+    # a synchronous transport may drain (resume) while the producer's turn that filled it is still on the stack: one such resume per run
+    for a0 in range(3):
+        for a1 in range(6):
+            J.append(Backpressure(k - 1, (a0, a1), reentrant_resume=True))
     J += [Rotation(2), Rotation(3), Rotation(4)]
     for a0 in range(11):
         J.append(InboundPause(5 if thorough else 4, (a0,)))
